@@ -82,16 +82,14 @@ impl M {
                             let mut v = last.val.clone().unwrap_or_default();
                             v.push_str(c.val.as_deref().unwrap_or(""));
                             last.val = Some(v);
-                            // survivor: the left node; if the left node is the inserted one and this is
-                            // its first merge, the survivor is not pinned
+                            // survivor: the left (earlier) node, as the statement says. If the left node is the
+                            // inserted one and this is its first merge, the alternative "the right neighbour keeps
+                            // its identity, the inserted node is destroyed" is recorded as the lenient pair: it is
+                            // what xot does on the insert paths, and C05 reports it under its own signature.
                             if Some(last.id) == inserted && lenient.is_none() {
-                                lenient = Some((last.id, c.id));
-                                // model keeps the right neighbour's identity (what xot does today)
-                                removed.push(last.id);
-                                last.id = c.id;
-                            } else {
-                                removed.push(c.id);
+                                lenient = Some((c.id, last.id));
                             }
+                            removed.push(c.id);
                             continue;
                         }
                     }
